@@ -231,6 +231,39 @@ func init() {
 			return Result{}, fmt.Errorf("readTuplesAndExecute: loop LoopOnIterator not found")
 		}
 
+		// ---- reverse_expand_weighted.go: who traverses the base when the exclusion has no excluded edge ----
+		fsetW, fW, err := parseFile(repo, "pkg/server/commands/reverseexpand/reverse_expand_weighted.go")
+		if err != nil {
+			return Result{}, err
+		}
+		exh := findFunc(fW, "ReverseExpandQuery", "exclusionHandler")
+		if exh == nil {
+			return Result{}, fmt.Errorf("exclusionHandler not found")
+		}
+		noExcludedCall, noExcludedChan := "", ""
+		ast.Inspect(exh.Body, func(n ast.Node) bool {
+			is, ok := n.(*ast.IfStmt)
+			if !ok || src(fsetW, is.Cond) != "edges.ExcludedEdge == nil" {
+				return true
+			}
+			for _, st := range is.Body.List {
+				rs, ok := st.(*ast.ReturnStmt)
+				if !ok || len(rs.Results) != 1 {
+					continue
+				}
+				if ce, ok := rs.Results[0].(*ast.CallExpr); ok && strings.HasSuffix(src(fsetW, ce.Fun), "loopOverEdges") {
+					noExcludedCall = src(fsetW, ce.Fun)
+					if len(ce.Args) >= 6 {
+						noExcludedChan = src(fsetW, ce.Args[5])
+					}
+				}
+			}
+			return false
+		})
+		if noExcludedCall == "" || noExcludedChan == "" {
+			return Result{}, fmt.Errorf("exclusionHandler: traversal of the base without excluded edge not found")
+		}
+
 		// ---- list_objects.go ----
 		fsetL, fL, err := parseFile(repo, "pkg/server/commands/list_objects.go")
 		if err != nil {
@@ -338,6 +371,10 @@ func init() {
 		sb.WriteString("def readTuplesLoopConds : List String := " + leanStrList(readConds) + "\n")
 		sb.WriteString("def pipelineGuard : String := " + leanStr(pipelineGuard) + "\n")
 		sb.WriteString("def weightedGuard : String := " + leanStr(weightedGuard) + "\n")
+		sb.WriteString("/-- weighted engine, exclusion without excluded edge: the traversal that sends to this channel … -/\n")
+		sb.WriteString("def exclusionNoExcludedEdgeChan : String := " + leanStr(noExcludedChan) + "\n")
+		sb.WriteString("/-- … is run by this receiver (a shallow clone has a fresh candidateObjectsMap) -/\n")
+		sb.WriteString("def exclusionNoExcludedEdgeCall : String := " + leanStr(noExcludedCall) + "\n")
 		sb.WriteString("def flagOptimizations : String := " + leanStr(flagOpt) + "\n")
 		sb.WriteString("def flagPipeline : String := " + leanStr(flagPipe) + "\n")
 		sb.WriteString("\nend OpenFGAVerif.Gen.ListObjects\n")
